@@ -168,9 +168,35 @@ def instrument_mdib(rec: Recorder, mdib):
     object.__setattr__(mdib, '_tr_lock', RecLock(rec, 'tr_lock', base.__getattribute__(mdib, '_tr_lock')))
 
 
+class _LiveSetProxy:
+    """What `table.objects` hands out: the LIVE set. Every use (iteration, len, membership) is a read of the table at the time
+    of use - which may be after the lock that protected the attribute access was released."""
+
+    def __init__(self, rec, tname, real):
+        self._rec, self._tname, self._real = rec, tname, real
+
+    def __iter__(self):
+        self._rec.event('tr', self._tname)
+        return iter(list(self._real))
+
+    def __len__(self):
+        self._rec.event('tr', self._tname)
+        return len(self._real)
+
+    def __contains__(self, item):
+        self._rec.event('tr', self._tname)
+        return item in self._real
+
+    def __bool__(self):
+        return len(self) > 0
+
+    def __getattr__(self, name):
+        return getattr(self._real, name)
+
+
 def _instrument_table(rec: Recorder, table, tname: str):
     tbase = type(table)
-    ns = {}
+    ns = {'objects': property(lambda self: _LiveSetProxy(rec, tname, tbase.objects.fget(self)))}
     for mname in dir(tbase):
         if mname.startswith(('add_object', 'remove_object', 'update_object', 'clear')):
             def mk(mname=mname):
